@@ -53,7 +53,7 @@ func (rn *runner) validatorTie() {
 	}
 	answers, err := rn.drv.AskAll(lines)
 	if err != nil {
-		res.Note("validator tie: %v", err)
+		res.Fatalf("validator tie: %v", err)
 		res.Mismatch(lib.Mismatch{Sig: "harness-run-aborted", Model: err.Error()})
 		return
 	}
@@ -66,7 +66,7 @@ func (rn *runner) validatorTie() {
 	for i, x := range vals {
 		f := new(felt.Felt)
 		if _, err := f.SetString("0x" + x.Text(16)); err != nil {
-			res.Note("validator tie: felt %s: %v", x.Text(16), err)
+			res.Fatalf("validator tie: felt %s: %v", x.Text(16), err)
 			continue
 		}
 		var m64, m128, ver bool
@@ -103,10 +103,23 @@ func (rn *runner) validatorTie() {
 	if v.Struct(vMax64{nil}) == nil || v.Struct(vVersion{nil}) == nil {
 		res.Violate(lib.Violation{Sig: "required-accepts-nil-felt", What: "a nil *felt.Felt passes `required`", Replay: map[string]string{"felt": "nil"}})
 	}
-	// the model's default configuration must be the code's
+	// The model's default configuration (junoCfg) must be the code's. A switch may differ only in the direction
+	// of its proposed repair (the fix has been applied to the tree and junoCfg not yet flipped): a regression of
+	// an applied fix, or any other value, is a mismatch.
 	ans, err := rn.drv.Ask("defaults")
-	want := fmt.Sprintf("%s %d %d", rn.cfg.peek, rn.cfg.nullNil, rn.cfg.silentNot)
-	if err != nil || strings.TrimSpace(ans) != want {
-		res.Mismatch(lib.Mismatch{Sig: "junoCfg (Lean) differs from the behaviour probed on the real server", Model: ans, Impl: want})
+	df := strings.Fields(ans)
+	pf := strings.Fields(rn.cfg.String())
+	ok := err == nil && len(df) == len(pf)
+	for i := 0; ok && i < len(df); i++ {
+		repaired := "1"
+		if i == 0 {
+			repaired = "-"
+		}
+		if pf[i] != df[i] && pf[i] != repaired {
+			ok = false
+		}
+	}
+	if !ok {
+		res.Mismatch(lib.Mismatch{Sig: "junoCfg (Lean) differs from the behaviour probed on the real server", Model: ans, Impl: rn.cfg.String()})
 	}
 }
